@@ -608,7 +608,7 @@ func (server *Server) registerCoreExecutors() {
 			case "INCR":
 				opt.INCR = true
 			default:
-				score, err = strconv.ParseFloat(param, 64)
+				score, err = parseFloat(param)
 				isOption = false
 			}
 			if !isOption {
